@@ -902,9 +902,12 @@ impl LocalPeerService {
                     let mut nodes_to_insert = Vec::with_capacity(nodes.len());
                     for mut node in nodes {
                         if let Some(mut nti) = node_map.remove(&node.id) {
-                            node._local_id = nti.old_local_id;
-                            nti.node = Some(node);
-                            nodes_to_insert.push(nti);
+                            //the remote peer must deliver the version it has announced, or a newer one
+                            if !nti.is_older_than_announced(&node) {
+                                node._local_id = nti.old_local_id;
+                                nti.node = Some(node);
+                                nodes_to_insert.push(nti);
+                            }
                         }
                     }
                     let res = discret_services
@@ -967,9 +970,12 @@ impl LocalPeerService {
                 let mut nodes_to_insert = Vec::with_capacity(nodes.len());
                 for mut node in nodes {
                     if let Some(mut nti) = node_map.remove(&node.id) {
-                        node._local_id = nti.old_local_id;
-                        nti.node = Some(node);
-                        nodes_to_insert.push(nti);
+                        //the remote peer must deliver the version it has announced, or a newer one
+                        if !nti.is_older_than_announced(&node) {
+                            node._local_id = nti.old_local_id;
+                            nti.node = Some(node);
+                            nodes_to_insert.push(nti);
+                        }
                     }
                 }
                 let res = discret_services
